@@ -92,7 +92,11 @@ SelfMvOps == {"value_or_mv", "deref_mv", "error_mv", "visit_mv"}
 MonadOps == {"and_then", "or_else", "transform", "transform_error"}
 ReadOps == {"deref", "arrow", "value", "error", "value_or", "error_or"}
 CmpOps == {"cmp_value", "cmp_value_r", "cmp_null", "cmp_null_r", "cmp_mixed", "cmp_mixed_r", "cmp_unexpected"}
-PureOps == MonadOps \cup ReadOps \cup CmpOps \cup {"conv_ref", "unex"}
+\* visit / visit_with_index over two variants of different types: the object and a foreign variant H3 / H4 in state
+\* (x.i, x.v); x.si = 0: visit(f, object, foreign), 1: visit(f, foreign, object)
+HetOps == {"visit_het", "vwi_het"}
+HAlts(t) == IF t = "h3" THEN <<"int", "bool", "trk">> ELSE <<"int", "bool", "trk", "mono">>
+PureOps == MonadOps \cup ReadOps \cup CmpOps \cup HetOps \cup {"conv_ref", "unex"}
 \* monadic operations the harness calls twice: on the object and through a const reference (both overloads)
 Doubled(kind, op) == (op = "and_then" /\ kind \in {"optional", "expected"}) \/ (op = "or_else" /\ kind = "expected")
 
@@ -106,7 +110,7 @@ OpsOf(kind) ==
             \cup {"deref", "arrow", "value", "value_or", "write_through", "and_then", "or_else", "transform",
                   "cmp_value", "cmp_value_r", "cmp_null", "cmp_null_r", "conv_ref"}
       [] kind = "variant" ->
-            {"ctor_default", "visit_mv"} \cup ValueOps \cup SelfOps \cup PlaceOps \cup TwoObjOps
+            {"ctor_default", "visit_mv"} \cup ValueOps \cup SelfOps \cup PlaceOps \cup TwoObjOps \cup HetOps
       [] kind = "expected" ->
             {"ctor_default", "ctor_inplace", "emplace"} \cup ValueOps \cup SelfOps \cup UnexOps \cup TwoObjOps
             \cup {"value_or_mv", "deref_mv", "error_mv", "and_then", "or_else", "transform", "transform_error",
@@ -138,6 +142,8 @@ Pre(kind, alts, op, o, x, s) ==
          [] op \in {"deref", "arrow", "value", "deref_mv", "write_through"} -> Engaged(kind, ob)
          [] op \in {"error", "error_mv"} -> ~Engaged(kind, ob)
          [] op = "conv_ref" -> x.si \in 0..1
+         [] op \in HetOps -> /\ x.t \in {"h3", "h4"} /\ x.si \in 0..1
+                             /\ x.i \in 0..(Len(HAlts(x.t)) - 1) /\ x.v \in Dom(Ty(HAlts(x.t), x.i))
          [] OTHER -> TRUE
 
 \* ---- effect ----------------------------------------------------------------------------------
@@ -192,6 +198,14 @@ Eff(kind, alts, op, o, x, s) ==
       [] op = "visit_mv" ->
             \* visitor called once with the active alternative as an rvalue (category code 3), result passed through
             [st |-> [s EXCEPT ![o] = Mv(alts, ob)], ret |-> <<TC(Ty(alts, ob.idx)), pv, 3, 1, 100 * TC(Ty(alts, ob.idx)) + pv>>]
+      \* the visitor is called exactly once, with the ACTIVE alternative of each argument, in argument order:
+      \* visit logs <<type, value, type, value, #calls>>, visit_with_index <<index, value, index, value, #calls>>
+      [] op = "visit_het" ->
+            LET mine == <<TC(Ty(alts, ob.idx)), pv>> other == <<TC(Ty(HAlts(x.t), x.i)), x.v>> IN
+            [st |-> s, ret |-> (IF x.si = 0 THEN mine \o other ELSE other \o mine) \o <<1>>]
+      [] op = "vwi_het" ->
+            LET mine == <<ob.idx, pv>> other == <<x.i, x.v>> IN
+            [st |-> s, ret |-> (IF x.si = 0 THEN mine \o other ELSE other \o mine) \o <<1>>]
       [] op = "write_through" -> [st |-> [s EXCEPT !.r[ob.val] = x.v], ret |-> <<x.v>>]
       [] op \in MonadOps ->
             LET m == MonadRet(kind, alts, op, s, ob) IN [st |-> s, ret |-> IF Doubled(kind, op) THEN m \o m ELSE m]
